@@ -92,3 +92,24 @@ def c07(ctx, rep):
     cmptables.rule_kind_tables(ctx, rep)
     cmptables.rule_set_algebra(ctx, rep, which=("txn_types",))
     cmptables._store_family_rule(ctx, rep, "T-STORE(kind)", "txn_types")
+
+
+from .rules import generic_tables  # noqa: E402
+
+
+@prop("C03", "Decides the structural clauses of C03 (exactness of the transfer tables on direct checks): (T-COMB) Boolean "
+             "combinators over condition values incl. unknown operands, over the set, fee-chain and address lattices; (T-BLOCK) "
+             "assert/return/err block constraints; (T-EDGE) bz/bnz edge constraints incl. target = next instruction and branch as "
+             "last instruction; (T-EQN) reach-in/live-in equations with call-site refinement on abstract CFG neighbourhoods; "
+             "(T-CMP exactness) the comparison tables of C06/C08/C09 and exactness of the compared label for the kind domain. "
+             "Not decided: exactness of the fixpoint for every placement of checks in every control shape.")
+def c03(ctx, rep):
+    generic_tables.rule_comb(ctx, rep)
+    generic_tables.rule_block(ctx, rep)
+    generic_tables.rule_edge(ctx, rep)
+    generic_tables.rule_eqn(ctx, rep)
+    generic_tables.rule_worklist(ctx, rep)
+    cmptables.rule_fee_tables(ctx, rep)
+    cmptables.rule_addr_tables(ctx, rep)
+    cmptables.rule_int_tables(ctx, rep)
+    cmptables.rule_kind_exact_compared(ctx, rep)
